@@ -147,10 +147,13 @@ class Interp(Ops, Builtins, DynOps):
             key = ("#g", name)
             if key not in fr.vars:
                 was = self.spec
+                a0 = self.ctx.next_addr
                 try:
                     fr.vars[key] = self.ev(expr, fr)
                 finally:
                     self.spec = was
+                # objects built by a module-level assignment exist before any call: a store into them is a store into a pre-existing object
+                self.ctx.preexisting.update(range(a0, self.ctx.next_addr))
             return fr.vars[key]
         raise EngineError(f"global {name}: {r}")
 
@@ -1138,6 +1141,7 @@ class Interp(Ops, Builtins, DynOps):
         if isinstance(s.op, ast.Add) and cur.kind == "ref" and cur.rkind == "list":
             self.ctx.mutating()
             self.ctx.cell(cur).extend(self.iter_concrete(rhs, s))
+            self.ctx.cell_write(cur.addr, "[]", s)
             new = cur
         elif isinstance(s.op, ast.Add) and cur.kind == "slist":
             self.slist_extend(cur, rhs, s)
